@@ -7,7 +7,7 @@ BUILT = os.environ.get("BUILT", "").split()
 CHECKS = {
  "C03": dict(engine="E1", cat="exploration", ref="DESIGN.md 5/C03",
    technique="stateful property testing: proptest-generated operation histories over a pool of live values, drop-registry invariant + value model after every step, shrinking",
-   text="120k generated histories (quick) of up to 40 chained ownership-moving operations (42 kinds) over arrays of length 0..=12, iterators, Box/Vec/Box<[T]> and loose elements, with identity-carrying drop-tracked (heap payload), zero-sized tracked and plain elements; every step is checked against a value model and the drop registry. Held-on-explored.",
+   text="400k generated histories (quick) of up to 40 chained ownership-moving operations (44 kinds, incl. zips with plain no-drop-glue arrays and collects that must fail) over arrays of length 0..=12, iterators, Box/Vec/Box<[T]> and loose elements, with identity-carrying drop-tracked (heap payload), zero-sized tracked and plain elements; every step is checked against a value model and the drop registry. Held-on-explored.",
    note="Panic-free histories only; lengths above 12 are covered per operation by C06/C09/C11; trusts the harness registry."),
  "C04": dict(engine="E1", cat="fault_enumeration", ref="DESIGN.md 5/C04",
    technique="fault injection enumerated over crash points: a panic injected at every call index of every closure / Clone / Default / source next() of each operation instance, oracle = drop registry",
@@ -15,15 +15,15 @@ CHECKS = {
    note="Single fault per run, never during unwinding; N <= 1024; element kinds limited to the compiled set."),
  "C05": dict(engine="E1", cat="fault_enumeration", ref="DESIGN.md 5/C05",
    technique="fault injection enumerated over (operation, iterator position, argument, panicking element): a destructor that panics once, oracle = per-element drop count and observation-after-drop registry; the iterator is used again after the caught panic",
-   text="Complete enumeration for N <= 8 of every dropping operation from every iterator position with every argument and every choice of the one element whose destructor panics, plus 100k sampled cases up to N = 1024. No element may be dropped twice or observed after its drop; leaks are allowed.",
+   text="Complete enumeration for N <= 8 of every dropping operation from every iterator position with every argument and every choice of the one element whose destructor panics (24-byte, 96-byte and zero-sized tracked elements), plus 300k sampled cases up to N = 4096. No element may be dropped twice or observed after its drop; leaks are allowed.",
    note="Single panicking destructor per run; a second panic during unwinding aborts by language rule and is out of scope."),
  "C06": dict(engine="E1", cat="exploration", ref="DESIGN.md 5/C06",
    technique="model-based property testing: exhaustive small-N operation grid + proptest operation sequences against a VecDeque reference model, with shrinking",
-   text="Every iterator operation with every argument from every reachable (front, back) position for N<=8 is enumerated, plus 200k generated operation sequences up to N=1024, each compared call by call with a VecDeque model and with drop accounting of identity-carrying elements. Held-on-explored, not a proof.",
+   text="Every iterator operation with every argument from every reachable (front, back) position for N<=8 is enumerated, plus 400k generated operation sequences up to N=4096 over four element kinds, each compared call by call with a VecDeque model and with drop accounting of identity-carrying elements. Held-on-explored, not a proof.",
    note="Trusts VecDeque as the queue reference and the harness' drop registry; lengths outside the compiled lattice are not exercised."),
  "C07": dict(engine="E1", cat="exploration", ref="DESIGN.md 5/C07",
    technique="property testing with a scripted source: complete grid over (N, produced count, size_hint behaviour, fusedness, target, by-value/&mut) plus proptest-random cases; oracle computed from the script",
-   text="~70k cases: every produced count around N for 34 lengths, ten size_hint behaviours including lying ones, fused and non-fused sources, four collect targets, std TrustedLen sources, and a panic injected into every next() call for N<=12. Checks Ok iff exactly N, order, at most N+1 pulls, never polled after None, pulled items dropped exactly once.",
+   text="~170k cases per build profile (with and without debug assertions): every produced count around N for 36 lengths, 24-byte and zero-sized drop-tracked elements, ten size_hint behaviours including lying ones, fused and non-fused sources, four collect targets, std TrustedLen sources, and a panic injected into every next() call for N<=12. Checks Ok iff exactly N, order, at most N+1 pulls, never polled after None, pulled items dropped exactly once.",
    note="Exact poll counts are not asserted; only the lattice lengths are instantiated."),
 }
 
@@ -34,47 +34,47 @@ CHECKS.update({
    note="Facts are those of this rustc on x86_64; the random part is a sample of the type/length space."),
  "C02": dict(engine="E1", cat="exploration", ref="DESIGN.md 5/C02",
    technique="property testing over a complete grid (lattice length x view x source length class x form) with seeded values; oracle = pointer identity, length, write-through and Ok/Err/panic as a function of (L, N)",
-   text="21k cases: 14 shared/mutable views checked for address, length and order with a write through each mutable view read back through all others; six reinterpretation forms against slices with L<N, L=N, L>N for 34 lengths and 5 element kinds (incl. zero-sized and drop-tracked); by-value array and all 12 tuple arities.",
+   text="63k cases per build profile (with and without debug assertions): 14 shared/mutable views checked for address, length and order with a write through each mutable view read back through all others; six reinterpretation forms against slices with L<N, L=N, L>N for 36 lengths up to 4096 and 7 element kinds (incl. zero-sized, drop-tracked, 72-byte and 32-byte-aligned); by-value array and all 12 tuple arities.",
    note="A wrongly accepted reference is never dereferenced, only its address is inspected."),
  "C08": dict(engine="E1", cat="exploration", ref="DESIGN.md 5/C08",
    technique="property testing with a stateful, non-commutative recording closure over a complete grid of (operation form, length, element kind) with seeded values; oracle = exact call log + slice reference computation",
-   text="16k cases over 26 operation forms (generate x4, map x4, zip x10, fold x4, Clone x2, Default x2) x 16 lengths x 5 element kinds selecting every needs_drop branch, each compared with the expected call log 0..N-1 and with the same computation on slices.",
+   text="41k cases over 26 operation forms (generate x4, map x4, zip x10, fold x4, Clone x2, Default x2) x 16 lengths (34 for u32, incl. non-multiples of every power-of-two block size) x 5 element kinds selecting every needs_drop branch, each compared with the expected call log 0..N-1 and with the same computation on slices.",
    note="Only the listed lengths are instantiated."),
  "C09": dict(engine="E1", cat="exploration", ref="DESIGN.md 5/C09",
    technique="differential property testing against Vec over an exhaustive type-level grid of (N,K)/(N,M)/index instances with seeded values, plus pointer-offset oracle for by-reference split",
-   text="29k cases: every N<=12 with every K (split owned/&/&mut), every (N,M) with N+M<=12 (concat), boundary pairs to 1024, lengthen/shorten on 25 lengths, remove/swap_remove with every index 0..=N+1 and usize::MAX, six element kinds of size 0/1/8/24 incl. drop-tracked; results compared with the Vec operations by value and identity.",
+   text="87k cases per build profile: every N<=12 with every K (split owned/&/&mut), every (N,M) with N+M<=12 (concat), boundary pairs to 4096, lengthen/shorten on 30 lengths up to 10000, remove/swap_remove with a spread of indices incl. N, N+1 and usize::MAX, eight element kinds of size 0/1/8/24/32(aligned)/72 incl. drop-tracked; a Miri replay of 320 cases; results compared with the Vec operations by value and identity.",
    note="A discarded one-past read is invisible natively (thorough tier: Miri/ASan)."),
  "C10": dict(engine="E1+E2", cat="exploration", ref="DESIGN.md 5/C10",
    technique="property testing over a complete (N, L) grid with std chunks_exact as reference (addresses, counts, write-through), plus generated const items evaluated by the compiler's const evaluator",
-   text="12k run-time cases (every L in 0..=4N+3 for 15 N up to 64, boundary L to 1024, five element kinds, shared and mutable) compared with chunks_exact/remainder by address and content, inverse and native-chunk views; plus ~2k const items over the same grid where an out-of-bounds slice is a hard compiler error.",
+   text="20k run-time cases per build profile (every L in 0..=4N+3 for 15 N up to 64, boundary L to 4096, seven element kinds, shared and mutable, N = 0 with native-array chunk views) compared with chunks_exact/remainder by address and content, inverse and native-chunk views; plus ~2k const items over the same grid where an out-of-bounds slice is a hard compiler error.",
    note="Only addresses and lengths are inspected before results are known to be in bounds."),
  "C11": dict(engine="E1", cat="exploration", ref="DESIGN.md 5/C11",
    technique="property testing over an exhaustive (N, M) grid with seeded values; oracle = row-major index relation, round trip, pointer identity and write-through",
-   text="9.6k cases: all (N,M) in 0..=6^2 plus 11 boundary pairs up to 1024, owned/&/&mut forms of flatten and unflatten, five element kinds incl. drop-tracked and zero-sized; flat[i*N+j]==nested[i][j] by value and identity, inverse law, same address and extent, write-through.",
+   text="38k cases: all (N,M) in 0..=6^2 plus 14 boundary pairs up to 4096 elements, owned/&/&mut forms of flatten and unflatten, eight element kinds incl. drop-tracked (24 and 96 bytes), zero-sized, 72-byte and over-aligned; flat[i*N+j]==nested[i][j] by value and identity, inverse law, same address and extent, write-through.",
    note="Unflatten only over evenly divisible lengths."),
  "C12": dict(engine="E2", cat="exploration", ref="DESIGN.md 5/C12",
    technique="generated programs in accept/reject twins (one length, type name or lifetime apart) compiled against the crate; oracle = predicted verdict vs rustc's type/trait/borrow checker",
-   text="532 programs (quick) from 205 templates: every public operation relating two lengths, Send/Sync/Copy/Clone for array, iterator and Box over ten element types, and widening / escape / aliasing / freeze probes for 41 reference-returning APIs. Reject programs must fail with a length, bound or borrow error; accept twins prove the templates are well formed.",
+   text="786 programs (quick) from 221 templates: every public operation relating two lengths, Send/Sync/Copy/Clone for array, iterator and Box over ten element types, and widening / escape / aliasing / freeze probes for 41 reference-returning APIs. Reject programs must fail with a length, bound or borrow error; accept twins prove the templates are well formed.",
    note="Templates are hand-written: a loosened bound no template probes is not found."),
  "C13": dict(engine="E1", cat="exploration", ref="DESIGN.md 5/C13",
    technique="property testing: exhaustive pairs over small alphabets + proptest pairs sharing a prefix; differential oracle = the slices of the same elements, a call-recording Hasher and map lookups through Borrow",
-   text="47k pairs: all pairs over {0,1,2} for N<=4 and over {NaN,-0.0,0.0,1.0,inf} for N<=3, plus random prefix-sharing pairs for 34 lengths and 5 element types; ==,<,partial_cmp,cmp, the exact write_* call sequence fed to a hasher, 15 Debug format specs and HashMap/BTreeMap lookups by &[T] compared with the slice.",
+   text="124k pairs: all pairs over {0,1,2} for N<=4 and over {NaN,-0.0,0.0,1.0,inf} for N<=3, plus random prefix-sharing / tail-differing pairs for 36 lengths, every array also compared with itself and 5 element types; ==,<,partial_cmp,cmp, the exact write_* call sequence fed to a hasher, 15 Debug format specs and HashMap/BTreeMap lookups by &[T] compared with the slice.",
    note="Hash agreement is checked as call sequences, which is stronger than equal hash values."),
  "C14": dict(engine="E1", cat="exploration", ref="DESIGN.md 5/C14",
    technique="property testing over a complete (N, precision, case, pattern) grid plus proptest-random data, run under both feature configurations; oracle = per-byte {:02x} reference string truncated to min(p, 2N)",
-   text="2 x 39k cases: every precision 0..=2N+2 for N<=33, boundary precisions around 2048/4096/2N for N up to 4096, four structured byte patterns plus random data, both cases; the check binary is built with and without faster-hex and both must equal the reference.",
+   text="2 x 123k cases: 66 lengths from 0 to 65536, every precision 0..=2N+2 for N<=33, boundary precisions (every power-of-two digit count, odd multiples of 2048, 2N-3..2N+1, 65535) beyond, four structured byte patterns plus random data, both cases; the check binary is built with and without faster-hex and both must equal the reference.",
    note="faster-hex picks its SIMD path by run-time CPU detection; other paths are not exercised."),
  "C15": dict(engine="E1", cat="exploration", ref="DESIGN.md 5/C15",
    technique="property testing over a grid of (conversion, N, source length, spare capacity, element kind) with a recording global allocator for block identity and small-stack child processes for multi-MiB constructions",
-   text="7k cases: 14 conversions x 15 lengths (to 65536) x source lengths {0,N-1,N,N+1} x spare capacity; contents and identities vs the source, Ok iff length N, rejected sources dropped, O(1) conversions keep the block (pointer + allocator log), and five boxed constructors build 4/16 MiB arrays on a 256 KiB stack.",
+   text="13.6k cases: 14 conversions x 15 lengths (to 65536) x source lengths {0,N-1,N,N+1} x spare capacity; contents and identities vs the source, Ok iff length N, rejected sources dropped, O(1) conversions keep the block (pointer + allocator log), and five boxed constructors build 4/16 MiB byte arrays and 31/32-element arrays of 16 KiB elements on a 256 KiB stack.",
    note="A stack round trip the optimiser removes entirely would not be seen (children built at opt-level 1)."),
  "C16": dict(engine="E1", cat="fault_enumeration", ref="DESIGN.md 5/C16",
    technique="recording global allocator + enumerated fault injection: a panic at every caller-code invocation (in-process) and an allocation failure at every allocation (child process) for each alloc-feature operation instance",
-   text="2.6k operation instances (18 operations x 9 lengths x 6 element kinds incl. zero-sized-by-length and 32-byte aligned), each run clean, with a panic at every callback index and with the k-th allocation failing for every k; no zero-size request, matching dealloc/realloc layouts, no double free, nothing live at the end, standard allocation-error abort.",
+   text="2.7k operation instances (19 operations x 9 lengths x 6 element kinds incl. zero-sized-by-length and 32-byte aligned, a narrowing boxed map, and boxed collects/maps of 1-3 MiB arrays), each run clean, with a panic at every callback index and with the k-th allocation failing for every k; no zero-size request, matching dealloc/realloc layouts, no double free, nothing live at the end, standard allocation-error abort.",
    note="Allocation failure is injected for N<=8 in the quick tier; the allocator wrapper is per-thread."),
  "C17": dict(engine="E1", cat="exploration", ref="DESIGN.md 5/C17",
    technique="property testing with a recording Serializer, three real formats and a scripted Deserializer over a complete grid of (N, delivered count, up-front hint, later hints, element-error index); oracle computed from the script + drop registry",
-   text="18k cases: serialize_tuple(N)/N elements/end, bincode = concatenated element encodings (and native tuples), JSON = list; round trips in JSON text, Value and bincode; rejection of every wrong count via JSON, truncated bincode and the scripted source with every hint/error combination; on rejection every element read is dropped.",
+   text="31k cases: serialize_tuple(N)/N elements/end, bincode = concatenated element encodings (and native tuples), JSON = list; round trips in JSON text, Value and bincode; rejection of every wrong count via JSON, truncated bincode and the scripted source with every hint/error combination (24-byte and zero-sized drop-tracked elements), plus 1-2 MiB arrays through bincode and exact hints; on rejection every element read is dropped.",
    note="A source reporting 'nothing left' while holding elements is outside the claim and not generated."),
  "C18": dict(engine="E2", cat="exploration", ref="DESIGN.md 5/C18",
    technique="generated const items: the compiler's const evaluator as UB oracle, python-computed expected checksums asserted inside the items, run-time re-evaluation of the same const fn, and separately compiled must-reject items",
@@ -82,11 +82,11 @@ CHECKS.update({
    note="The const evaluator checks only the instantiations the generated items contain."),
  "C19": dict(engine="E1+E2", cat="exploration", ref="DESIGN.md 5/C19",
    technique="property testing over every storage shape N in 0..=64 (+8 boundary lengths) x 7 element types with seeded prior contents; oracle = per-element comparison with the zeroized value / T::DEFAULT, at run time and in generated const items",
-   text="6.6k run-time cases and 438 const items: zeroize() leaves every element at its zeroized value (incl. types whose zeroized value is not all-zero bytes), const_default()/DEFAULT have every element equal to T::DEFAULT for types whose default is distinguishable from zero, equal Default::default(), at compile time and run time.",
+   text="6.8k run-time cases and 558 const items over 93 lengths up to 12000: zeroize() leaves every element at its zeroized value (incl. types whose zeroized value is not all-zero bytes), const_default()/DEFAULT have every element equal to T::DEFAULT for types whose default is distinguishable from zero, equal Default::default(), at compile time and run time.",
    note="An odd node using one child twice is indistinguishable by value (harmless by construction)."),
  "C20": dict(engine="E2", cat="exploration", ref="DESIGN.md 5/C20",
    technique="generated macro invocations with logging element expressions; oracle = native array literal, explicit type annotation and evaluation log",
-   text="208 generated invocation groups: list form for every count 0..=64,100,128,255,256 (trailing comma variants, String elements, const position), both repeat forms over 20 lengths in const and let position with pure/logging/impure expressions, and box_arr! with the same arguments.",
+   text="269 generated invocation groups: list form for every count 0..=64,100,128,255,256 (trailing comma variants, String elements, const position), both repeat forms over 20 lengths in const and let position with pure/logging/impure expressions, list forms moving non-Copy locals, repeat lengths given as type-level expressions, and box_arr! with the same arguments.",
    note="Only the documented syntactic forms are generated."),
 })
 
